@@ -5,6 +5,13 @@ C18 part 2 - the clauses of the property about `SecretManagerClient`, for every 
 the interleaving model (any schedule, any CA behaviour) and for sequential callers (`seqOp`, the
 operations the `cache` stream executes on the real code).
 -/
+-- the `first | (...; done) | ...` cascades below try the cheap closing tactic first; in the branches where it
+-- already succeeds the linters report the fallbacks as unused. They are needed in the other branches.
+set_option linter.unusedTactic false
+set_option linter.unreachableTactic false
+set_option linter.unusedSimpArgs false
+set_option linter.unusedVariables false
+
 namespace IstioModel.C18
 
 /-! ### pair_consistent -/
@@ -52,6 +59,79 @@ theorem okSinceClear_step (y : Sys) (p : Nat) (i : Input) :
   split
   all_goals (repeat' split)
   all_goals (simp_all [clearWorkload])
+
+/-- The action is a successful generateNewSecret step. -/
+def isOkCall (y : Sys) : Act → Bool
+  | .step p i =>
+    match y.procs p, i.ca with
+    | .gCallCA _, .ok _ _ _ => true
+    | _, _ => false
+  | .spawn _ _ => false
+
+/-- Number of successful CA calls made while the schedule `as` runs from `y`. -/
+def okCount : Sys → List Act → Nat
+  | _, [] => 0
+  | y, a :: as => (if isOkCall y a then 1 else 0) + okCount (apply y a) as
+
+theorem step_ok_count (y : Sys) (p : Nat) (i : Input) (h : (step y p i).st.clears = y.st.clears) :
+    (step y p i).st.okSinceClear = y.st.okSinceClear + (if isOkCall y (.step p i) then 1 else 0) := by
+  revert h
+  unfold step isOkCall
+  simp only [finish]
+  split
+  all_goals (repeat' split)
+  all_goals (simp_all [clearWorkload])
+
+theorem spawn_counters (y : Sys) (p : Nat) (k : Kind) :
+    (spawn y p k).st.clears = y.st.clears ∧ (spawn y p k).st.okSinceClear = y.st.okSinceClear := by
+  unfold spawn
+  split
+  all_goals (repeat' split)
+  all_goals (simp_all)
+
+theorem apply_clears_le (y : Sys) (a : Act) : y.st.clears ≤ (apply y a).st.clears := by
+  cases a with
+  | spawn p k => simp [apply, (spawn_counters y p k).1]
+  | step p i => exact step_clears_le y p i
+
+theorem run_clears_le (y : Sys) (as : List Act) : y.st.clears ≤ (run y as).st.clears := by
+  induction as generalizing y with
+  | nil => exact Nat.le_refl _
+  | cons a as ih => exact Nat.le_trans (apply_clears_le y a) (ih (apply y a))
+
+/-- While no cache clear happens, `okSinceClear` grows by exactly the number of successful CA calls. -/
+theorem ok_count_segment (y : Sys) (as : List Act) (h : (run y as).st.clears = y.st.clears) :
+    (run y as).st.okSinceClear = y.st.okSinceClear + okCount y as := by
+  induction as generalizing y with
+  | nil => simp [run, okCount]
+  | cons a as ih =>
+    have h1 := apply_clears_le y a
+    have h2 := run_clears_le (apply y a) as
+    have hrun : run y (a :: as) = run (apply y a) as := rfl
+    rw [hrun] at h ⊢
+    have hc : (apply y a).st.clears = y.st.clears := by omega
+    rw [ih (apply y a) (by omega)]
+    cases a with
+    | spawn p k =>
+      simp only [apply] at hc ⊢
+      rw [(spawn_counters y p k).2]
+      simp [okCount, isOkCall, apply]
+    | step p i =>
+      simp only [apply] at hc ⊢
+      rw [step_ok_count y p i hc]
+      simp only [okCount, apply]
+      omega
+
+/-- **single_flight**, schedule form: take any reachable state and run any schedule - any number of
+    GenerateSecret calls for either resource, interleaved at atomic steps with each other, with stale
+    or current timer checks and trust bundle comparisons, any CA behaviour.  If no cache clear
+    happens during it, the CA is asked successfully at most once during it (and not at all if a
+    successful call since the last clear preceded it). -/
+theorem single_flight_segment {y : Sys} (h : Reachable y) (as : List Act)
+    (hno : (run y as).st.clears = y.st.clears) : y.st.okSinceClear + okCount y as ≤ 1 := by
+  have := single_flight_calls (reachable_run h as)
+  rw [ok_count_segment y as hno] at this
+  exact this
 
 /-- The skip branch of registerSecret ("already scheduled") is dead code: when a caller reaches the
     check, the cache is empty. -/
